@@ -15,6 +15,7 @@ CONFIGS = [(0, "selector optimize=True", lambda: ExactAlgorithm(optimize=True), 
 
 
 class Exact(Suite):
+    scribbled_rate = 0.1     # share of the cases where the caller scribbled on what the read accessors returned (algos.scribble)
     escalate_cap = 120
     names_rate, past_rate = 0.06, 0.06     # hostile element names / datasets with a past (gen.decorate_cases)
     name = "exact"
